@@ -482,3 +482,39 @@ def s_record_contributing_values(ctx):
 SCENARIOS.append(Scenario("C14.folding.provenance", s_record_contributing_values,
                           [("onnxscript/optimizer/_constant_folding.py", "_record_contributing_values")], kind="bounded", max_paths=20000,
                           trusted=["arbitrary-set-order model: list()/for over a native set forks over every permutation (sets of <= 4 elements; three representative orders beyond)"]))
+
+
+def s_to_model_proto_frame(ctx):
+    """OnnxFunction.to_model_proto(**kwargs): the export options of THIS call are the decorator's options overridden by the
+    call's; the function object is not modified (self.kwargs - shared by every function made by one decorator object -
+    keeps its content), so a later call without options, on this or any other function, is unaffected (C14: 'can be
+    called repeatedly with identical results and without modifying the function')."""
+    from onnxscript._internal import values
+    I = Interp(ctx)
+    fn = SObj(values.OnnxFunction, "onnx_function")
+    deco = {"producer_name": "deco"} if ctx.choose(2, "decorator has options") == 0 else {}
+    shared = dict(deco)
+    has_required = ctx.choose(2, "function has a required attribute") == 1
+    attr = SObj(object, "attr")
+    attr.fields["value"] = None if has_required else 1
+    fir = SObj(object, "function_ir")
+    fir.fields["attrs"] = [attr] if ctx.choose(2, "function has attributes") == 0 else []
+    fn.fields.update(kwargs=shared, function_ir=fir)
+    calls = []
+    I.models[values.OnnxFunction._to_model_proto] = lambda interp, slf, **kw: (calls.append(dict(kw)) or ("proto", len(calls)))
+    call_kw = {"ir_version": 7, "producer_name": "call"} if ctx.choose(2, "call passes options") == 0 else {}
+    clo = I.closure_of(values.OnnxFunction.to_model_proto)
+    try:
+        r1 = I.run_closure(clo, [fn], dict(call_kw))
+        r2 = I.run_closure(clo, [fn], {})
+    except PyRaise as e:
+        ctx.check("C14.to_model_proto.refuses_exactly_functions_with_a_required_attribute",
+                  isinstance(e.exc, ValueError) and has_required and bool(fir.fields["attrs"]) and not calls, CL_GLOB)
+        return
+    ctx.check("C14.to_model_proto.refuses_exactly_functions_with_a_required_attribute", not (has_required and fir.fields["attrs"]), CL_GLOB)
+    ctx.check("C14.to_model_proto.options_are_the_decorator_options_overridden_by_the_call", calls[:1] == [{**deco, **call_kw}], CL_GLOB)
+    ctx.check("C14.to_model_proto.function_object_is_not_modified", shared == deco and fn.fields["kwargs"] is shared, CL_GLOB)
+    ctx.check("C14.to_model_proto.a_later_call_without_options_uses_the_decorator_options_only", calls[1:] == [dict(deco)], CL_GLOB)
+
+
+SCENARIOS.append(Scenario("C14.to_model_proto.frame", s_to_model_proto_frame, [("onnxscript/_internal/values.py", "OnnxFunction.to_model_proto")]))
